@@ -42,6 +42,7 @@ def emulator_state(w, prog, ln, machine, paging_enabled=None, cpu_overrides=None
     ctl = ctl.with_field(prog.field_index(ln.CTL, "machine"), cc.machine_value(prog, ln, machine))
     if paging_enabled is not None:
         ctl = ctl.with_field(prog.field_index(ln.CTL, "paging_enabled"), paging_enabled)
+    ctl = cc.apply_specs_caches(prog, w, st, ctl, ln.CTL, ln, machine)
     emu = emu.with_field(prog.field_index(ln.EM, "controller"), ctl)
     c = w.materialise(SymObj("emu.cpu", ("adt", cpu.Z80, ())), st)
     c = c.with_field(prog.field_index(cpu.Z80, "regs"), cpu.symbolic_regs(prog, w, st))
